@@ -273,3 +273,68 @@ class SequentialPlaceSearchStart:
 
     def ensures_search_starts_at_the_first_chip(cur_chip, result):
         return result[0] == cur_chip
+
+
+# ---- apply_reserve_resource_constraint: a machine-wide reservation meeting one chip with resources of its own (fragment) -----------
+from pyvc.values import ListV, NONE   # noqa: E402,F401
+GCONSTRAINT = TRec("ReserveResourceConstraint", resource=TInt(), reservation=SLICE, location=TNone())
+
+
+def _exc_get(E, obj, args, kwargs, st, node):
+    s = st.copy()
+    s.trace = ListV(s.trace.items + (("exception_of", args[0]),))
+    # (what is read back after it was replaced in this step is the replacement)
+    for t in reversed(st.trace.items):
+        if t[0] == "exception_set" and t[1] is args[0]:
+            s.trace = st.trace
+            return [(st, t[2], None)]
+    return [(s, st.env["g_old"], None)]
+
+
+def _exc_set(E, obj, args, kwargs, st, node):
+    s = st.copy()
+    s.trace = ListV(s.trace.items + (("exception_set", args[0], args[1]),))
+    return [(s, NONE, None)]
+
+
+def _machine_has(E, obj, args, kwargs, st, node):
+    return [(st, st.env["g_live"], None)]
+
+
+@contract("rig/place_and_route/place/utils.py::apply_reserve_resource_constraint@forbody:0")
+class GlobalReservationOnAnException:
+    """a machine-wide reservation meets one chip with resources of its own: that chip's resources are REPLACED (not edited in
+    place: the dictionary may be the caller's) by what is left after the reservation - only the reserved resource shrinks, by
+    exactly the length of the reserved range - and the reservation fails exactly when the chip is a WORKING chip of the machine and
+    is left with a negative amount (a dead chip's entry never makes a reservation fail)"""
+    properties = ("C02",)
+    params = dict(machine=TRec("Machine", chip_resource_exceptions=TRec("Exceptions")), constraint=GCONSTRAINT, location=TTuple(TInt(), TInt()),
+                  g_old=RES, g_live=TBool())
+    fragment_result = ()
+    fragment_head = "for location in machine.chip_resource_exceptions:"
+    modular = ("rig/place_and_route/place/utils.py::resources_after_reservation", "rig/place_and_route/place/utils.py::overallocated")
+    externals = {"Exceptions.__getitem__": _exc_get, "Exceptions.__setitem__": _exc_set, "Machine.__contains__": _machine_has}
+    raises = {"InsufficientResourceError": None, "KeyError": None}
+    options = {"no_merge": True}
+    assumptions = ["the table of exceptions is opaque (what is read and stored is recorded; the chip's resources before the step are the ghost g_old); "
+                   "whether the chip is a working chip of the machine is a ghost"]
+
+    def native(location):
+        _skip()
+
+    def requires(constraint, g_old):
+        return constraint.resource in g_old
+
+    def raises_KeyError(constraint, g_old):
+        return False
+
+    def raises_InsufficientResourceError(constraint, g_old, g_live):
+        n = constraint.reservation.stop - constraint.reservation.start
+        return g_live and exists_int(lambda k: k in g_old and (g_old[k] - (n if k == constraint.resource else 0)) < 0)
+
+    def ensures_replaced_by_what_is_left_and_fails_only_for_a_working_chip(constraint, location, g_old, g_live, _trace):
+        n = constraint.reservation.stop - constraint.reservation.start
+        new = _trace[1][2]
+        return (len(_trace) == 2 and _trace[0] == ("exception_of", location) and _trace[1][0] == "exception_set" and _trace[1][1] == location
+                and forall_int(lambda k: ((k in new) == (k in g_old)) and implies(k in g_old, new[k] == g_old[k] - (n if k == constraint.resource else 0)))
+                and implies(g_live, not exists_int(lambda k: k in new and new[k] < 0)))
